@@ -323,20 +323,17 @@ func (s *sim) diskRestartTrigger(d diskSnapshot) string {
 		return ""
 	}
 	set := s.setFor(d.ch)
-	var best *big.Int
-	ties := 0
+	committed := d.chain[d.ch]
+	per := map[string]*big.Int{}
 	for hash, sigs := range pc.BlockSignatures {
 		ok, _ := checkSigs(set, 1, d.ch, d.cr, hash, sigs)
-		p := powerOf(set, ok)
-		switch {
-		case best == nil || p.Cmp(best) > 0:
-			best, ties = p, 1
-		case p.Cmp(best) == 0:
-			ties++
-		}
+		per[hash] = powerOf(set, ok)
 	}
-	if ties > 1 {
-		return "C09-A27"
+	cp := per[committed]
+	for hash, p := range per {
+		if hash != committed && (cp == nil || p.Cmp(cp) >= 0) {
+			return "C09-A27"
+		}
 	}
 	return ""
 }
